@@ -47,12 +47,20 @@ type regRes struct {
 	Steps []regObs `json:"steps"`
 	Ares  []int    `json:"ares"` // per acceptor: -1 none yet, 100+c got connection c, 1 dup, 2 chan dup, 3 cancelled, 9 other error
 	Apc   []int    `json:"apc"`  // per acceptor: 0 not started .. 5 returned (manual), real: 0 / 2 (in flight) / 5
+	// connections that were handed to a channel, reached no acceptor, and were never closed by the listener's code
+	Unclosed []int `json:"unclosed"`
 	Note  string   `json:"note,omitempty"`
 }
 
 type tagConn struct {
 	vconn
-	idx int
+	idx    int
+	closed *int32
+}
+
+func (t *tagConn) Close() error {
+	atomic.StoreInt32(t.closed, 1)
+	return nil
 }
 
 func classifyAcceptErr(err error) int {
@@ -113,6 +121,7 @@ func runRegCase(c regCase) (res regRes) {
 	mcancel := make([]bool, na)
 	cheld := make([]chan<- net.Conn, nc)
 	cpc := make([]int, nc) // 0 C0, 1 C1, 2 C2, 3 C3, 4 sent, 5 fail, 6 drop
+	cclosed := make([]int32, nc)
 	cserver := make([]int, nc)
 	for i := range cserver {
 		cserver[i] = -1
@@ -276,7 +285,7 @@ func runRegCase(c regCase) (res regRes) {
 		case "csend":
 			if cpc[a] == 3 {
 				select {
-				case cheld[a] <- &tagConn{idx: a}:
+				case cheld[a] <- &tagConn{idx: a, closed: &cclosed[a]}:
 					cpc[a], o.R = 4, 1
 				default:
 				}
@@ -294,6 +303,19 @@ func runRegCase(c regCase) (res regRes) {
 		snapshot(&o)
 		res.Steps = append(res.Steps, o)
 	}
+	defer func() {
+		got := map[int]bool{}
+		for _, x := range res.Ares {
+			if x >= 100 {
+				got[x-100] = true
+			}
+		}
+		for ci := 0; ci < nc; ci++ {
+			if cpc[ci] == 4 && !got[ci] && atomic.LoadInt32(&cclosed[ci]) == 0 {
+				res.Unclosed = append(res.Unclosed, ci)
+			}
+		}
+	}()
 	for a := 0; a < na; a++ {
 		if c.Areal[a] && reals[a] != nil {
 			collect(a)
@@ -449,6 +471,8 @@ type lbCase struct {
 	Secrets []string `json:"secrets"`
 	Accs    []lbAcc  `json:"accs"`
 	Dials   []lbDial `json:"dials"`
+	BudgetMs int     `json:"budget_ms"` // how long an accept may wait after the dialers started
+	DialMs   int     `json:"dial_ms"`   // context of a dial
 }
 type lbAccRes struct {
 	Err     int    `json:"err"`  // 0 ok, 1 dup, 3 cancelled/deadline, 9 other
@@ -500,6 +524,9 @@ func runLbCase(c lbCase) (res lbRes) {
 				return
 			}
 			budget := 10 * time.Second
+			if c.BudgetMs > 0 {
+				budget = time.Duration(c.BudgetMs) * time.Millisecond
+			}
 			if a.CancelMs >= 0 {
 				budget = time.Duration(a.CancelMs) * time.Millisecond
 			}
@@ -586,7 +613,11 @@ func runLbCase(c lbCase) (res lbRes) {
 			defer wg.Done()
 			d := c.Dials[i]
 			time.Sleep(time.Duration(d.DelayMs) * time.Millisecond)
-			ctx, cancel := context.WithTimeout(context.Background(), 4*time.Second)
+			dialBudget := 4 * time.Second
+			if c.DialMs > 0 {
+				dialBudget = time.Duration(c.DialMs) * time.Millisecond
+			}
+			ctx, cancel := context.WithTimeout(context.Background(), dialBudget)
 			defer cancel()
 			conn, err := DialWithContext(ctx, addr, &Config{PSK: secrets[d.Sec], SCTP: ClientOpen})
 			if err != nil {
